@@ -154,8 +154,7 @@ class Gen:
         return e
 
     def top(self, d):
-        if self.rng.chance(1, 40):
-            return ('A', self.elem(d))
+        # ALL EXCEPT is outside the property's list of constructs (asn1c ignores it): not generated
         return self.unions(d)
 
     def spec(self, d):
@@ -426,6 +425,42 @@ def make_groups(rng, tier):
     return groups
 
 
+def specs_of(chain):
+    return [s for link in chain for s in link]
+
+
+def witness_value(spec, c_row):
+    """a root value whose PER encoding differs between the two layouts (the lower
+    bound of the Spec's root: its offset / field width / extension bit differ)"""
+    if spec["lb"] not in ("MIN", "MAX"):
+        return {"value": int(spec["lb"]), "spec_layout": spec["PER"], "asn1c_layout": c_row}
+    if spec["ub"] not in ("MIN", "MAX"):
+        return {"value": int(spec["ub"]), "spec_layout": spec["PER"], "asn1c_layout": c_row}
+    return {"value": 0, "spec_layout": spec["PER"], "asn1c_layout": c_row}
+
+
+QUIRKS = {"a": "C09-additions-in-root", "c": "C09-chain-marker-kept", "e": "C09-empty-union-operand", "u": "C09-unconstrained-extensible"}
+MASKS = sorted(("".join(k for i, k in enumerate("aceu") if m >> i & 1) for m in range(1, 16)), key=lambda x: (len(x), x))
+
+
+def classify(g, c_vis, c_row, c_oer, model):
+    """known-finding predicates (coq/Fix/CtQuirks.v): each finding is one rule
+    changing the Spec; a disagreement is attributed to a set of findings only if
+    the Spec changed by exactly those rules reproduces what asn1c printed and
+    emitted (smallest set first).  Returns the finding ids or None."""
+    qs = ["quirk_c09 %s %s %s" % (m, g["kind"], chain_tok(g["chain"])) for m in MASKS]
+    _, qo, _ = run_lines(model, qs)
+    for m, line in zip(MASKS, qo):
+        q = dict(f.split("=", 1) for f in line.split(" "))
+        if q["empty"] == "true":
+            if c_vis.endswith(":Empty!"):
+                return [QUIRKS[k] for k in m]
+            continue
+        if q["vis"] == c_vis and q["PER"] == c_row and (q["OER"] in ("unclaimed", "empty") or q["OER"] == c_oer):
+            return [QUIRKS[k] for k in m]
+    return None
+
+
 def main(tier):
     run = Run("C09", tier)
     rng = Rng(run.seed)
@@ -487,9 +522,54 @@ def main(tier):
     for g in groups[:3] + groups[len(groups) // 2: len(groups) // 2 + 2]:
         run.sample({"asn1": g["defs"], "asn1c": g["cline"], "model": g["model"]})
 
+    # property oracle: Spec (X.680 root + X.691/X.696 effective constraint) vs what asn1c printed / emitted
+    slines = ["spec_c09 %s %s" % (g["kind"], chain_tok(g["chain"])) for g in groups]
+    rc, so, me = run_lines(model, slines)
+    if rc != 0 or len(so) != len(slines):
+        raise RuntimeError("model driver failed on spec queries: rc=%s %s" % (rc, me))
+    oracle_bad = set()
+    for g, sl in zip(groups, so):
+        if "c" in g or not g.get("print") or not isinstance(g.get("tables"), tuple) or g["tables"][0] is None:
+            continue
+        spec = dict(f.split("=", 1) for f in sl.split(" "))
+        col = 0 if g["kind"] == "T" else 1
+        c_vis = (g["print"].get("PER-visible") or ["", "", ""])[col] or "-"
+        per_rows = g["tables"][0].split("/")
+        c_row = per_rows[col]
+        c_oer = g["tables"][1]
+        c_oer = ",".join(c_oer.split(",")[:2]) if g["kind"] == "T" else c_oer.split(",")[2]
+        diffs = []
+        if spec["empty"] == "true":
+            run.count("oracle:empty-root(no claim)")
+            if not c_vis.endswith(":Empty!"):
+                diffs.append(("empty", "spec: root is empty", c_vis))
+        else:
+            if c_vis != spec["vis"]:
+                diffs.append(("visible-range", spec["vis"], c_vis))
+            if c_row != spec["PER"]:
+                diffs.append(("per-row", spec["PER"], c_row))
+            if spec["OER"] not in ("unclaimed", "empty") and c_oer != spec["OER"]:
+                diffs.append(("oer-row", spec["OER"], c_oer))
+            run.count("oracle:" + ("oer-claimed" if spec["OER"] != "unclaimed" else "oer-unclaimed"))
+        if not diffs:
+            run.count("oracle:agree")
+            continue
+        fids = classify(g, c_vis, c_row, c_oer, model)
+        if fids:
+            for fid in fids:
+                run.count("oracle:" + fid)
+                run.known_finding(fid, g["defs"])
+            continue
+        oracle_bad.add(g["name"])
+        run.violation("oracle:effective-constraint",
+                      {"what": "the range / table asn1c derives is not the effective constraint of the expression",
+                       "asn1": g["defs"], "command_line": "spec_c09 %s %s" % (g["kind"], chain_tok(g["chain"])),
+                       "differences": [{"what": d[0], "spec": d[1], "asn1c": d[2]} for d in diffs],
+                       "value_encoded_differently": witness_value(spec, c_row),
+                       "replay_cmd": "printf 'M DEFINITIONS ::= BEGIN\\n%s\\nEND\\n' > m.asn1 && asn1c -E -F -print-constraints m.asn1" % "\\n".join(g["defs"])})
     for v in run.violations:
         if v.pop("_pending", False):
-            v["no_failing_input_found"] = True
+            v["no_failing_input_found"] = not any(nm in " ".join(v.get("asn1", [])) for nm in oracle_bad)
     tb = ["Coq 8.16.1 kernel + vm_compute (refuted witnesses only)",
           "axioms under Print Assumptions: " + (", ".join(sorted(axioms)) or "none (Closed under the global context)"),
           "extraction: ExtrOcamlBasic only; OCaml 4.13.1; ocaml/drv_c09.ml (tree parser, range printer)",
